@@ -464,7 +464,7 @@ def cases(tier, seed=0):
         ident = kind.startswith("identity")
         for (Dx, Dy) in ([(1, 1), (2, 2)] if ident else [(1, 1), (2, 1), (1, 2)]):
             for (Rc, Rx) in batches:
-                if kind == "nncontrol" and Rc > 1:
+                if kind == "nncontrol" and Rc > 2:
                     continue
                 for tr in ("joint", "marginal", "conditional"):
                     semi = ("Sx",) if (Dx, Dy) == (2, 2) else ()
@@ -473,12 +473,22 @@ def cases(tier, seed=0):
                 out.append(trans_case("update_Sigma", kind, Dx, Dy, 2, 1))
         if tier == "thorough" and not ident:
             for (Rc, Rx) in batches:
-                if kind == "nncontrol" and Rc > 1:
+                if kind == "nncontrol" and Rc > 2:
                     continue
                 for tr in ("joint", "marginal", "conditional"):
                     out.append(trans_case(tr, kind, 2, 2, Rc, Rx, semi=("Sx", "Sy"), timeout=1800))
                     out.append(trans_case(tr, kind, 2, 2, Rc, Rx, semi=("M", "Sx"), timeout=1800))
     # heteroscedastic conditionals conditioned on x (A square, and A wide: see known findings)
+    # constructor / history / prior variants of the conditional (precision only; covariance and precision together; after
+    # update_Sigma; diagonal prior; prior from covariance and precision)
+    from .condprops import CTOR_VARIANTS
+    for kind in ("full", "diag", "identity", "identitydiag", "nncontrol"):
+        for var in CTOR_VARIANTS:
+            if kind == "nncontrol" and var in (("viaL",), ("viaSL",)):
+                continue
+            dd = (2, 2) if kind.startswith("identity") else (1, 2)
+            for tr in ("joint", "marginal", "conditional"):
+                out.append(trans_case(tr, kind, dd[0], dd[1], 2, 1, semi=var + (("Sx",) if dd == (2, 2) else ())))
     out += history_cases(tier, seed)
     from .c17 import coherence_case
     for link, signs in (("exp", None), ("cosh", None), ("step", [1]), ("relu", [1])):
